@@ -212,6 +212,19 @@ Theorem C13_model_and_source_have_the_same_case_codes :
 Proof. split; [exact vm_step_unknown_iff_not_key|exact (proj1 (proj2 eff_dispatch_is_keys))]. Qed.
 Print Assumptions C13_model_and_source_have_the_same_case_codes.
 
+(* The converse at path level: every path the table lists for a case code is the path the model's step takes
+   from some state (the witnesses are found by computation over a small family of candidate states in
+   Proofs/VMEffectProofs.v).  With C13_step_effects_match_source_table: per case code, the control paths of the
+   source and the behaviours of the model are the same set of (pops, pushes, exit, flags, crawl) tuples — a source
+   edit that adds a way through a case body (say a conditional extra push) breaks this theorem. *)
+Theorem C13_source_table_paths_are_model_paths :
+  forall c pts pt,
+    In (c, pts) G_effects_x -> c <> -1 -> In pt pts ->
+    exists e p s w o, code_at p (pc s) = Some w /\ eff_case_code w (mode s) = c /\
+                      step e p (-1) s = Ok o /\ eff_path_ok p pt s o.
+Proof. exact vm_table_paths_are_model_paths. Qed.
+Print Assumptions C13_source_table_paths_are_model_paths.
+
 (* The net form over G_effects (the same table without flags and crawl): a successful step changes the track
    length by pushed - popped (one more word off, the frame head, when the path falls to backtrack(); no claim
    on trackto paths, popped = -1), the grouping-stack length by pushed - popped, and leaves by the exit kind. *)
